@@ -2162,13 +2162,22 @@ class CParser:
         if tok.type not in _STRING_LITERAL and tok.type not in _WSTR_LITERAL:
             self._parse_error("Invalid string literal", self._tok_coord(tok))
         node = c_ast.Constant("string", tok.value, self._tok_coord(tok))
+        if not (
+            self._peek_type() in _STRING_LITERAL or self._peek_type() in _WSTR_LITERAL
+        ):
+            return node
+        # The bodies are collected and joined once: rebuilding the value for
+        # every literal is quadratic in the length of the run.
+        prefix, _, body = tok.value.partition('"')
+        bodies = [body[:-1]]
         while (
             self._peek_type() in _STRING_LITERAL or self._peek_type() in _WSTR_LITERAL
         ):
             tok2 = self._advance()
-            prefix, _, body = node.value.partition('"')
             prefix2, _, body2 = tok2.value.partition('"')
-            node.value = (prefix or prefix2) + '"' + body[:-1] + body2
+            prefix = prefix or prefix2
+            bodies.append(body2[:-1])
+        node.value = prefix + '"' + "".join(bodies) + '"'
         return node
 
     # BNF: unified_wstring_literal : WSTRING_LITERAL+
